@@ -20,6 +20,7 @@ class CountingSource(DataSource):
         self.fault_at = fault_at  # the read() call (1-based) that raises once: a transient device / pipe error
         self.fault_exc = fault_exc
         self.fault_propagated = False
+        self.validator_fault = False
 
     def read(self):
         self.calls += 1
@@ -186,7 +187,7 @@ def parse_delivery(delivery):
     mode, prior, use, j = parts[0], None, None, 0
     for p in parts[1:]:
         k, _, val = p.partition("=")
-        if k == "fault":
+        if k in ("fault", "vfault"):
             continue
         if k == "prior":
             prior = tuple(1 if c == "A" else 0 for c in val)
@@ -247,6 +248,36 @@ def run(v, params, kind="tuple", delivery="list", on_token=None):
     `delivery` may carry an earlier use of the same tokenizer object (see parse_delivery)."""
     mode, prior, use, j = parse_delivery(delivery)
     frames, validator = FRAME_KINDS[kind](v)
+    vfault = [p.partition("=")[2] for p in delivery.split("|")[1:] if p.startswith("vfault=")]
+    if vfault:
+        # 'vfault=K:Name': the validator raises Name on its K-th call, once (a model that times out on one window).  Either
+        # the exception reaches the caller or the tokenizer carries on; what is handed out is bound by the properties that do
+        # not need a verdict for that frame (C01 slices and order, C02 lengths).
+        k, _, name = vfault[0].partition(":")
+        inner = validator.is_valid if hasattr(validator, "is_valid") else validator
+        state = {"calls": 0, "raised": 0}
+
+        def flaky(frame):
+            state["calls"] += 1
+            if state["calls"] == int(k):
+                state["raised"] += 1
+                exc = FAULTS[name]("injected validator fault")
+                exc.vf_injected = True
+                raise exc
+            return inner(frame)
+
+        src = CountingSource(frames)
+        tk = make_tokenizer(flaky, params)
+        tokens = []
+        try:
+            deliver(tk, src, mode, on_token, out=tokens)
+        except BaseException as exc:
+            if not (getattr(exc, "vf_injected", False) or getattr(exc.__cause__ or exc.__context__, "vf_injected", False)):
+                raise
+            src.fault_propagated = True
+        src.faults = state["raised"]
+        src.validator_fault = True
+        return frames, tokens, src
     fault = [p.partition("=")[2] for p in delivery.split("|")[1:] if p.startswith("fault=")]
     if fault:
         # 'fault=K:Name': the K-th read() call raises Name once; the call after it succeeds (a transient error).
